@@ -14,7 +14,7 @@ RULE = ("a case is a history of 2-40 steps {new KeyFile object, enter, exit (pro
         "from a file state in {absent, valid, empty, 1/16/31/33/64 bytes, parent directory missing, parent is a "
         "regular file}; checked against a 20-line model (file bytes; per object: depth, key); non-trivial = at least "
         "one enter and one encrypt/decrypt were judged; distinct = distinct (initial state, step list)")
-REQUIRED = ("enter_ok_judged", "enter_rejected_judged", "key_measured_from_xor", "outside_context_rejected",
+REQUIRED = ("exits_with_exception", "enter_ok_judged", "enter_rejected_judged", "key_measured_from_xor", "outside_context_rejected",
             "retention_scans", "created_once_checked", "nested_enter_judged", "reenter_after_rejection_judged")
 ASSUMPTIONS = ["the key in use is measured as xor_ciphertext XOR known_plaintext (48 bytes) and by decrypting AES "
                "output with the pure-Python oracle under the expected key",
@@ -79,7 +79,7 @@ def generate(rng, ctx):
             else:
                 depth[o] += 1
         elif kind == "exit":
-            steps.append(["exit", o])
+            steps.append(["exit", o] + (["exc"] if rng.random() < 0.3 else []))
             depth[o] -= 1
         elif kind == "enc":
             steps.append(["enc", o, rng.choice(["xor", "xor", "aes", "best"])])
@@ -267,7 +267,13 @@ def run(case, ctx, res):
         elif kind == "exit":
             if depth[o] == 0:
                 continue
-            kf.__exit__(None, None, None)
+            if len(step) > 2:
+                # the context is left through an exception (as `with` does when its body raises)
+                err = ValueError("body of the with block failed")
+                kf.__exit__(ValueError, err, None)
+                res.count("exits_with_exception")
+            else:
+                kf.__exit__(None, None, None)
             depth[o] -= 1
             if depth[o] == 0:
                 res.count("retention_scans")
